@@ -131,7 +131,16 @@ end Arl
 namespace Arl
 open Wire
 
-/-- line protocol: `pack <nexp> <rows>` and `unpack <nexp> <var1> <byterows>` -/
+/-- ARL packed-bit files are fixed-length records: a 50-character label and one byte per grid cell; each
+time period is an index record followed by one record per (level, variable) -/
+def recl (ncell : Nat) : Nat := 50 + ncell
+
+def fileBytes (ncell ntimes nrec : Nat) : Nat := ntimes * ((1 + nrec) * recl ncell)
+
+/-- byte offset of data record `k` (0-based) of time period `t` -/
+def recOffset (ncell nrec t k : Nat) : Nat := (t * (1 + nrec) + 1 + k) * recl ncell
+
+/-- line protocol: `pack <nexp> <rows>`, `unpack <nexp> <var1> <byterows>`, `layout <ncell> <ntimes> <nrec>` -/
 def run : List String → String
   | ["pack", ne, rows] =>
     match parseInt ne, parseRows parseRat rows with
@@ -147,6 +156,10 @@ def run : List String → String
   | ["unpack", ne, v1, rows] =>
     match parseInt ne, parseRat v1, parseRows parseInt rows with
     | some nexp, some v, some b => s!"ok {showRows showRat (unpack (scaleOf nexp) v b)}"
+    | _, _, _ => "err parse"
+  | ["layout", ncell, nt, nrec] =>
+    match parseNat ncell, parseNat nt, parseNat nrec with
+    | some c, some t, some r => s!"ok {fileBytes c t r}"
     | _, _, _ => "err parse"
   | _ => "err bad-op"
 
